@@ -286,6 +286,8 @@ def run(rep: Report, tier: str) -> None:  # noqa: C901
                                     f"{sk.func.name} gathers the values a viral propagation rule reduces with a plain UNION: two children (or operands) carrying the same values for the same "
                                     f"identifiers collapse into one row, so `aggregate sum` / `avg` and non-idempotent enumerated rules see too few values"))
     rep.floor("R28.7 unions in viral-propagation SQL", n7, 2)
+    rep.rule("R28.9", "aggregate-function rules over a group use the order-independent aggregate of the column, not a fold over list(col)")
+    group_forms_by_rule_kind(P, rep, "R28.9")
     # ---- R28.8 the result of DS op DS carries the viral attributes of BOTH operands, in both structure computations ----
     rep.rule("R28.8", "dataset-dataset operators: the result structure has every viral attribute of either operand and no plain attribute (semantic analysis and the transpiler's structure, finite model)")
     from sa import structmodel as _sm
@@ -319,3 +321,31 @@ def run(rep: Report, tier: str) -> None:  # noqa: C901
                                     f"combined by its propagation rule when both have it) and no plain attribute"))
     rep.floor("R28.8 cases", n8, 30)
     rep.assumptions = ["LEAST/GREATEST/+// on non-null numbers behave as min/max/sum/quotient (exact rationals used)", "grammar tokens MIN MAX SUM AVG are the aggregate functions of vp clauses"]
+
+
+def group_forms_by_rule_kind(P: Program, rep: Report, rule: str) -> None:
+    """vp_group_sql / vp_group_sql_windowed are lowered (finite evaluator) for every kind of rule - the four aggregate functions and
+    an enumerated rule.  An aggregate-function rule must use DuckDB's order-independent aggregate over the column; a form that
+    gathers the values with list(col) and folds them follows the physical order of the input rows (and for avg the pairwise fold
+    is not even the average).  The enumerated fold is the listed known finding (keyed by the skeleton); this rule keys each
+    aggregate kind separately, so widening the fold to sum / avg is a different violation."""
+    from sa.e6 import ExternalObj, Interp, Raised, Unmodelled
+    n = 0
+    for fname, extra in (("vp_group_sql", {}), ("vp_group_sql_windowed", {"over_clause": "PARTITION BY p"})):
+        f = P.func(f"{SQLM}.{fname}")
+        for kind in ("min", "max", "sum", "avg"):
+            r = ExternalObj({"name": "r", "signature_type": "variable", "target": "V", "enumerated_clauses": [], "aggregate_function": kind, "default_value": None})
+            try:
+                sql = Interp(P).call(f, dict({"rule": r, "col_ref": '"V"'}, **extra))
+            except (Unmodelled, Raised) as e:
+                raise AnalysisError(f"{rule}: {fname} outside the evaluator's language for an aggregate rule `{kind}`: {e}")
+            n += 1
+            low = str(sql).lower()
+            folded = "list_reduce" in low or "list(" in low or "array_agg" in low or "string_agg" in low
+            rep.instance(rule, f"group-form/{fname}/{kind}", nontrivial=True, sample={"rule": kind, "sql": str(sql)[:100]})
+            if folded:
+                rep.add(Finding(rule, f"{rule}/group-form/{fname}/{kind}", f.module.rel, f.node.lineno, f.qualname,
+                                f"an aggregate rule `{kind}` over a group is generated as `{str(sql)[:90]}`: the values are gathered in the physical order of the input rows and folded, "
+                                f"so permuting the datapoints changes the result" + (" (a pairwise fold of avg is order-dependent: ((a+b)/2+c)/2)" if kind == "avg" else
+                                                                                     " whenever the fold is not associative and commutative on its inputs (NULLs, float rounding)")))
+    rep.floor(f"{rule} group forms", n, 8)
